@@ -1,6 +1,6 @@
-(* Interleavings of two handlers of one device (Model/Steps.v interleave). The concurrent clauses of
-   C03, C07 and C09 are FALSE of the model of the present code: witnesses below, computed with the concrete
-   cipher (Base/AES.v). The correspondence run executes the same forced schedules on the real pipeline. *)
+(* Interleavings of handlers of one device (Model/Steps.v interleave, interleaveN): witness schedules computed
+   with the concrete cipher (Base/AES.v), and the join clause of C05 for every schedule. The correspondence run
+   executes the same forced schedules on the real pipeline. *)
 From Coq Require Import String.
 From Lospan Require Import Base.Bytes Base.AES Base.Outcome Model.FrameTypes Model.Crypto Gen.Consts Model.Frame Model.Store
   Model.Server Model.Steps Spec.RefDevice Proof.BitLemmas.
@@ -27,27 +27,18 @@ Example witness_frame_is_good :
   length (ds_inbox (fst (prun [9] 30 (w_st 5 3) (w_prog 5 100 1000) []))) = 1%nat.
 Proof. vm_compute. split; reflexivity. Qed.
 
-(* C03/C09, copies: both handlers read the row before either writes: recorded twice, answered twice,
-   and both answers carry the same downlink counter (C07) *)
+(* The schedules that broke the code before the counters were advanced by single statements
+   (AdvanceFCntUp, NextFCntDn): copies of one frame with both reads ahead of both writes, and two consecutive
+   frames overlapping (the later frame's handler writes first: the overtaken frame is then refused as used).
+   On the present model they are harmless; SchedDataProof.v proves it for every schedule. *)
 Definition copies_result := interleave [9] [false; true] 60 (w_st 5 3) (w_prog 5 100 1000) (w_prog 5 200 2000) [].
-Theorem concurrent_copies_recorded_twice_refuted :
-  exists sched st p q, d_relaxed (w_dev 5 3) = false /\ ds_inbox st = [] /\
-    length (ds_inbox (fst (interleave [9] sched 60 st p q []))) = 2%nat.
-Proof. exists [false; true], (w_st 5 3), (w_prog 5 100 1000), (w_prog 5 200 2000). vm_compute. repeat split. Qed.
-Theorem concurrent_copies_answered_twice_refuted :
-  length (flat_map w_fcnt_of (snd copies_result)) = 2%nat.
-Proof. vm_compute. reflexivity. Qed.
-Theorem concurrent_downlink_counter_reused_refuted :
-  flat_map w_fcnt_of (snd copies_result) = [3; 3].
-Proof. vm_compute. reflexivity. Qed.
-
-(* C03, consecutive frames 5 and 6 handled concurrently: both recorded, and the stored expected counter
-   ends at 6, so frame 6 can be replayed *)
+Example old_copies_schedule_now_harmless :
+  length (ds_inbox (fst copies_result)) = 1%nat /\ flat_map w_fcnt_of (snd copies_result) = [3] /\ option_map d_fup (ds_row (fst copies_result)) = Some 6 /\ option_map d_fdn (ds_row (fst copies_result)) = Some 4.
+Proof. vm_compute. repeat split. Qed.
 Definition consecutive_result := interleave [9] ([true; false; true; false] ++ repeat true 30) 60 (w_st 5 3) (w_prog 5 100 1000) (w_prog 6 200 2000) [].
-Theorem concurrent_counter_regression_refuted :
-  length (ds_inbox (fst consecutive_result)) = 2%nat /\
-  option_map d_fup (ds_row (fst consecutive_result)) = Some 6.
-Proof. vm_compute. split; reflexivity. Qed.
+Example old_consecutive_schedule_now_harmless :
+  length (ds_inbox (fst consecutive_result)) = 1%nat /\ flat_map w_fcnt_of (snd consecutive_result) = [3] /\ option_map d_fup (ds_row (fst consecutive_result)) = Some 7 /\ option_map d_fdn (ds_row (fst consecutive_result)) = Some 4.
+Proof. vm_compute. repeat split. Qed.
 
 (* ---------- C05: two handlers of copies of one join-request, EVERY schedule ---------- *)
 From Lospan Require Import Model.Join Proof.LocalProof.
@@ -74,6 +65,8 @@ Section JoinSched.
   Proof.
     destruct o; cbn [exec fst]; try (left; reflexivity).
     - unfold l_update_device_state. destruct (ds_row st); cbn; now left.
+    - unfold l_advance_fup. destruct (ds_row st) as [r|]; [destruct (d_fup r <=? accepted)|]; cbn; now left.
+    - unfold l_next_fdn. destruct (ds_row st); cbn; now left.
     - unfold l_create_upstream. destruct (existsb _ (ds_inbox st)); cbn; now left.
     - unfold l_get_phy. destruct (ds_fb st); [|cbn; now left]. destruct (_ && _ && _); [cbn; now left|].
       destruct (0 <? _)%nat; [|cbn; now left]. destruct (max_payload datr); [|cbn; now left]. destruct (_ <? _)%nat; cbn; now left.
@@ -88,6 +81,8 @@ Section JoinSched.
   Proof.
     intros H. destruct o; cbn [exec snd]; try reflexivity.
     - now destruct (l_update_device_state st dev).
+    - now destruct (l_advance_fup st accepted newfup kw).
+    - now destruct (l_next_fdn st).
     - now destruct (l_create_upstream st m).
     - now destruct (l_get_phy st datr).
     - exfalso. eapply H. reflexivity.
@@ -266,22 +261,23 @@ Section JoinCopies.
   Lemma atmost_enc_join dev j rx : atmost 1 (enc_join_prog E D dev j rx []).
   Proof.
     unfold enc_join_prog. apply AM_other; [now apply not_emit_by_shape|]. intros r.
-    destruct r as [[e|]| | | |]; try (constructor; reflexivity).
+    destruct r as [[e|]| | | | |]; try (constructor; reflexivity).
     destruct (encode_join_accept E D (d_appkey dev) JoinAccept c_MaxSupportedVersion j); try (constructor; reflexivity).
     apply AM_emit. intros _. constructor. reflexivity.
   Qed.
   Lemma atmost_enc_data dev p rx c now : atmost 1 (enc_data_prog E dev p rx c now []).
   Proof.
-    unfold enc_data_prog. destruct (encode_message E _ _ _); try (constructor; reflexivity).
-    apply AM_other; [now apply not_emit_by_shape|]. intros _.
+    unfold enc_data_prog. destruct (encode _); try (constructor; reflexivity).
     apply AM_other; [now apply not_emit_by_shape|]. intros r.
-    destruct r as [[e|]| | | |]; try (constructor; reflexivity).
-    destruct (length a =? 0)%nat; [constructor; reflexivity|]. apply AM_emit. intros _. constructor. reflexivity.
+    destruct r as [| | | | |[cn|]]; try (constructor; reflexivity).
+    destruct (encode_message E _ _ _) as [buf| |]; try (constructor; reflexivity).
+    apply AM_other; [now apply not_emit_by_shape|]. intros _.
+    destruct (length buf =? 0)%nat; [constructor; reflexivity|]. apply AM_emit. intros _. constructor. reflexivity.
   Qed.
   Lemma atmost_send dev rx c now : atmost 1 (send_prog E D dev rx c now []).
   Proof.
     unfold send_prog. apply AM_other; [now apply not_emit_by_shape|]. intros r.
-    destruct r as [| | |g|]; try (constructor; reflexivity). destruct g as [| |p]; try (constructor; reflexivity).
+    destruct r as [| | |g| |]; try (constructor; reflexivity). destruct g as [| |p]; try (constructor; reflexivity).
     destruct (po_mtype p =? JoinAccept).
     - destruct (po_ja p); now apply atmost_enc_join.
     - destruct (_ || _ || _); [constructor; reflexivity | apply atmost_enc_data].
@@ -291,15 +287,15 @@ Section JoinCopies.
     waiting (jr_devnonce (jr f)) (join_prog E D cfg f rx an na).
   Proof.
     intros Hc. unfold join_prog. apply W_read; [now left|]. intros r.
-    destruct r as [| [dev0|] | | |]; try (constructor; reflexivity).
+    destruct r as [| [dev0|] | | | |]; try (constructor; reflexivity).
     destruct (negb _); [constructor; reflexivity|]. apply W_read; [now left|]. intros r.
-    destruct r as [| [dev|] | | |]; try (constructor; reflexivity).
+    destruct r as [| [dev|] | | | |]; try (constructor; reflexivity).
     destruct (negb (d_appeui dev =? _)); [constructor; reflexivity|]. destruct (_ && _); [constructor; reflexivity|].
     apply W_read; [right; eexists; reflexivity|]. intros r.
-    destruct r as [| | | |[|]]; try (constructor; reflexivity).
+    destruct r as [| | | |[|]|]; try (constructor; reflexivity).
     rewrite Hc. apply W_add.
     - intros e. constructor. reflexivity.
-    - apply AM_other; [now apply not_emit_by_shape|]. intros r. destruct r as [[e|]| | | |]; try (constructor; reflexivity).
+    - apply AM_other; [now apply not_emit_by_shape|]. intros r. destruct r as [[e|]| | | | |]; try (constructor; reflexivity).
       apply AM_other; [now apply not_emit_by_shape|]. intros _. apply atmost_send.
   Qed.
 
